@@ -194,6 +194,7 @@ func (m *MuxBroker) timeoutWait(id uint32, p *muxBrokerPending) {
 	timeout := false
 	select {
 	case <-p.doneCh:
+		verifhook.Point("mux.timeoutWait.accepted", id)
 	case <-time.After(5 * time.Second):
 		timeout = true
 		verifhook.Point("mux.timeoutWait.fired", id)
